@@ -118,13 +118,19 @@ def corr(ctx):
             v = [(1 - 2 * b) * rng.uniform(1.0, 4.0) for b in c]
             i = rng.randrange(n); v[i] = -v[i] * 0.05
             vecs.append(v)
+        # exactly one erased / punctured position (LLR 0), both parities of the remaining hard decisions: the maximum-likelihood
+        # code word is still unique (the zero position is the free one)
+        for _ in range(6):
+            v = [rng.choice([-1, 1]) * rng.uniform(0.3, 5.0) for _ in range(n)]
+            v[rng.randrange(n)] = 0.0
+            vecs.append(v)
         L = torch.tensor(vecs, dtype=torch.float32)
         out = dec(L)
         out_e, errs = dec(L, return_errors=True)
         shape_ok = tuple(out.shape) == (len(vecs), k) and bool((out == out_e).all())
         for row, o in zip(L.tolist(), out.tolist()):
             mags = sorted(abs(v) for v in row)
-            if len(mags) > 1 and mags[1] - mags[0] < 1e-6 or min(mags) < 1e-9:
+            if len(mags) > 1 and mags[1] - mags[0] < 1e-6:
                 ctx.skipped_by_margin += 1
                 continue
             scores = sorted(((sum((1 - 2 * b) * x for b, x in zip(c, row)), c) for c in cws), reverse=True)
